@@ -110,12 +110,11 @@ C12_twin(h, s) ==
                                 /\ (Len(s) >= 1 => Len(fs) = 2 /\ fs[2].fsrc = ap(s[1].p.dst, s[1].p.dport) /\ fs[2].fdst = ap(s[1].p.src, s[1].p.sport))
             [] OTHER -> TRUE
 
-\* arrivals on the wire that no capture handle of the (single, parallel-engine) run read or filtered: the run had stopped listening
+\* arrivals on the wire that no capture handle of the run read or filtered: the run was not listening (any more)
 Undelivered(h, d) ==
-    IF IsSerial(V(h)) THEN <<>>
-    ELSE LET seen == {d[i].pkt : i \in DOMAIN d} \cup {h.fil[i].pkt : i \in DOMAIN h.fil}
-             idx == SelectSeq([k \in DOMAIN h.arr |-> k], LAMBDA k : k \notin seen /\ h.arr[k].t >= h.out.t)
-         IN [i \in DOMAIN idx |-> [n |-> h.arr[idx[i]].n, t |-> h.arr[idx[i]].t, pkt |-> idx[i], h |-> 0, run |-> 1]]
+    LET seen == {d[i].pkt : i \in DOMAIN d} \cup {h.fil[i].pkt : i \in DOMAIN h.fil}
+        idx == SelectSeq([k \in DOMAIN h.arr |-> k], LAMBDA k : k \notin seen)
+    IN [i \in DOMAIN idx |-> [n |-> h.arr[idx[i]].n, t |-> h.arr[idx[i]].t, pkt |-> idx[i], h |-> 0, run |-> 1]]
 
 \* is property p applicable to the finished scenario h / does it hold (evaluated lazily, only when applicable)
 App(p, h) ==
